@@ -248,10 +248,73 @@ func runC02(r *Run) {
 				}
 			}
 		}
-		// cases
 		idLoad := func(v ssa.Value) bool { return loadOfField(v, "Constraint.ID") }
+		// the same arity table written as a helper: `if len(c.Data) < c.requiredLen() { return false }`,
+		// the helper being a switch on c.ID that returns a constant per id
+		for _, br := range branchesInOne(ck) {
+			if !lenOfField(br.Info.Root, "Constraint.Data") || br.Info.Other == nil {
+				continue
+			}
+			call, ok := stripValue(br.Info.Other).(*ssa.Call)
+			if !ok {
+				continue
+			}
+			g := transparentCallee(ck, call)
+			if g == nil {
+				continue
+			}
+			// the rejecting slot: len(Data) < need
+			var rejSlot = -1
+			switch br.Info.Op {
+			case token.LSS:
+				rejSlot = br.slotWhenRel(true)
+			case token.GEQ:
+				rejSlot = br.slotWhenRel(false)
+			}
+			if rejSlot < 0 {
+				continue
+			}
+			tb := br.If.Block().Succs[rejSlot]
+			if len(tb.Instrs) == 0 {
+				continue
+			}
+			if isRet, isC, v := retConstBool(tb.Instrs[len(tb.Instrs)-1]); !isRet || !isC || v {
+				continue
+			}
+			for id := range ids {
+				cut := map[edge]bool{}
+				for _, gb := range branchesInOne(g) {
+					if gb.Info.Op != token.EQL || gb.Info.Const == nil || !idLoad(gb.Info.Root) {
+						continue
+					}
+					k, ok := constInt(gb.Info.Const)
+					if !ok {
+						continue
+					}
+					if k == id {
+						cut[edge{gb.If.Block(), gb.slotWhenRel(false)}] = true
+					} else {
+						cut[edge{gb.If.Block(), gb.slotWhenRel(true)}] = true
+					}
+				}
+				need, decided := int64(-1), true
+				for b := range blocksReachable(g.Blocks[0], cut, nil) {
+					if ret, isRet := b.Instrs[len(b.Instrs)-1].(*ssa.Return); isRet {
+						n, ok := constInt(asConst(retOperand(ret, 0)))
+						if !ok || (need >= 0 && need != n) {
+							decided = false
+						}
+						need = n
+					}
+				}
+				if decided && need > guarantee[id] {
+					guarantee[id] = need
+				}
+			}
+		}
+		// cases
 		cases := map[int64]branch{}
-		for _, br := range branchesIn(ck) {
+		for _, br := range branchesInOne(ck) {
 			if br.Info.Op == token.EQL && br.Info.Const != nil && idLoad(br.Info.Root) {
 				if n, ok := constInt(br.Info.Const); ok {
 					cases[n] = br
